@@ -112,6 +112,14 @@ func init() {
 					hostParam = kv[1]
 				}
 			}
+			digisOK := !strings.ContainsAny(target, "/")
+			for _, d := range digis {
+				digisOK = digisOK && simple(d)
+			}
+			if digisOK && isASCII(target) && len(target) < 3 && !okTuple && err != transport.ErrInvalidTarget {
+				// an EMPTY target (a path that ends in "/") is a target shorter than three as well
+				c.Violate("C19:short-target-accepted", fmt.Sprintf("ParseURL(%q): empty target not refused (%v, result %s)", raw, err, out), rep)
+			}
 			if okTuple {
 				up := strings.ToUpper
 				switch {
@@ -247,7 +255,7 @@ func init() {
 			cases = append(cases, Case{Line: fmt.Sprintf("parseurl %s %s %s %s", hs(pu.Scheme), hs(pu.Host), hs(pu.Path), hs(pu.Query().Get("host"))), Impl: out, Desc: fmt.Sprintf("ParseURL(%q)", raw), Class: "raw-accepted-by-url.Parse", Nontrivial: true})
 		}
 		// registry histories
-		regSchemes := []string{"vx1", "vx2", "vx3"}
+		regSchemes := []string{"vx1", "vx2", "VX1"} // scheme keys are exact strings: "VX1" is not "vx1"
 		for i := 0; i < c.Budget(400, 5000); i++ {
 			for _, s := range regSchemes {
 				transport.UnregisterDialer(s)
